@@ -385,6 +385,19 @@ func c17(c *an.Check) {
 				incs = append(incs, x)
 				walk(x.X)
 			}
+		case *ssa.Call:
+			// the count may be computed by a private helper: continue in what it returns
+			if h := x.Call.StaticCallee(); h != nil && h.Pkg == build.Pkg && h.Parent() == nil && len(h.Blocks) > 0 && h.Signature.Results().Len() == 1 {
+				if n := h.Name(); n != "" && n[0] >= 'a' && n[0] <= 'z' {
+					for _, hb := range h.Blocks {
+						for _, hi := range hb.Instrs {
+							if r, ok := hi.(*ssa.Return); ok && len(r.Results) == 1 {
+								walk(r.Results[0])
+							}
+						}
+					}
+				}
+			}
 		}
 	}
 	// usable on the path is a canonical value; find the phi web it belongs to
